@@ -213,8 +213,9 @@ def rule_cover(ctx):
     lon0 = [st for st in f.body if isinstance(st, ast.Assign) and norm(st.targets[0]) == "lon_grid"]
     lon_ok = bool(lon0) and norm(lon0[0].value).replace(" ", "") == "-180+0.5*SRTM30._dlon" and isinstance(st_lon, ast.AugAssign) and isinstance(st_lon.op, ast.Add) \
         and norm(st_lon.value).replace(" ", "") == "%s*SRTM30._dlon" % norm(lon_ar[0]).replace(" ", "")
-    fr = [Fraction(0), Fraction(1, 4), Fraction(1, 2), Fraction(3, 4)]
-    pts = [Fraction(n) + x for n in range(2, 6) for x in fr]
+    den = 8 if ctx.tier == "thorough" else 4
+    fr = [Fraction(k_, den) for k_ in range(den)]
+    pts = [Fraction(n) + x for n in range(2, 8 if ctx.tier == "thorough" else 6) for x in fr]
     bad_lat = bad_lon = None
     n = 0
     for u, v in itertools.product(pts, repeat=2):
